@@ -1,6 +1,6 @@
 """C06 — editing functions produce exactly the document the edit denotes."""
 from .. import gen
-from . import common
+from . import common, treeoracle, sizes
 
 SPEC_THEOREM = 'Props/C06: editor_m (enc inputs) = enc (editor_t inputs); editors preserve well-formedness; the byte editors as state functions over the caller buffer: f_st (enc v) args buf = (buf ++ enc result, Ok) or (buf, Err documented) (C06_errors_leave_the_buffer_unchanged), and on any input an error return leaves the buffer as it was (C06_errors_leave_the_buffer_unchanged_on_any_input)'
 TRUSTED = ['Coq 8.16.1 kernel', 'translator', 'extraction + OCaml driver', 'Rust harness',
@@ -48,12 +48,12 @@ def wide_stream(ctx):
             ctx.add('concat %s %s' % (le, re_), meta=('concat', left, rt))
             ctx.add('concat %s %s' % (re_, le), meta=('concat', rt, left))
         ks = [key(i) for i in range(0, 2 * w, 3)]
-        ctx.add('object_delete %s %s' % (le, gen.hexlist(ks)))
-        ctx.add('object_pick %s %s' % (le, gen.hexlist(ks)))
+        ctx.add('object_delete %s %s' % (le, gen.hexlist(ks)), meta=('odel', left, set(ks)))
+        ctx.add('object_pick %s %s' % (le, gen.hexlist(ks)), meta=('opick', left, set(ks)))
         for k in (key(0), key(w // 2), key(w - 1), key(w), b'a', b'z'):
-            ctx.add('delete_by_name %s %s' % (le, gen.hexarg(k)))
+            ctx.add('delete_by_name %s %s' % (le, gen.hexarg(k)), meta=('dbn', left, k))
             for upd in (0, 1):
-                ctx.add('object_insert %s %s %s %d' % (le, gen.hexarg(k), gen.hexarg(gen.enc(('u', 1))), upd))
+                ctx.add('object_insert %s %s %s %d' % (le, gen.hexarg(k), gen.hexarg(gen.enc(('u', 1))), upd), meta=('oins', left, k, ('u', 1), upd))
         ctx.add('strip_nulls %s' % gen.hexarg(gen.enc(('o', [(key(i), ('n',) if i % 2 else ('a', [('n',), ('o', [(b'x', ('n',))])])) for i in range(w)]))))
         arr = ('a', [('u', i) if i % 2 else ('s', key(i)) for i in range(w)])
         ae = gen.hexarg(gen.enc(arr))
@@ -66,11 +66,74 @@ def wide_stream(ctx):
         ctx.add('build_object %s %s' % (gen.hexlist([k for k, _ in left[1]][::-1]), gen.hexlist([gen.enc(x) for _, x in left[1]])))
 
 
+def big_stream(ctx):
+    """every editor at the first / middle / last position of containers of 255 .. 1000 members, and with strings / keys of
+    255 .. 65536 bytes as the thing edited, inserted or stepped over (sizes.py; second review H2).  Every case carries the meta
+    of an independent tree oracle.  The 1000-member object costs the model 4 .. 8 s per edit: it gets one case per editor."""
+    small = ('o', [(b'new', ('s', b'v'))])
+    se = gen.hexarg(gen.enc(small))
+    for lab, v in sizes.string_docs() + sizes.container_docs():
+        e = gen.hexarg(gen.enc(v))
+        n = len(v[1]) if v[0] in 'ao' else 0
+        costly = lab.startswith('obj1000')
+        ctx.add('concat %s %s' % (e, se), meta=('concat', v, small))
+        ctx.add('concat %s %s' % (se, e), meta=('concat', small, v))
+        ctx.add('strip_nulls %s' % e, meta=('strip', v))
+        if v[0] == 'a':
+            for i in sizes.positions(n):
+                ctx.add('delete_by_index %s %d' % (e, i), meta=('dbi', v, i))
+                ctx.add('array_insert %s %d %s' % (e, i, se), meta=('ains', v, i, small))
+                ctx.add('delete_by_keypath %s i%d' % (e, i), meta=('dkp', v, [('i', i)]))
+            strs = [x[1] for x in v[1] if x[0] == 's']
+            for k in ([strs[0], strs[-1], strs[-1] + b'x'] if strs else [b'nokey']):
+                ctx.add('delete_by_name %s %s' % (e, gen.hexarg(k)), meta=('dbn', v, k))
+            if n <= 300:
+                ctx.add('concat %s %s' % (e, e), meta=('concat', v, v))
+                ctx.add('build_array %s' % gen.hexlist([gen.enc(x) for x in v[1]]), meta=('barr', v[1]))
+            for i, x in sizes.first_mid_last(v):
+                if x[0] == 'o' and x[1]:
+                    ctx.add('delete_by_keypath %s i%d,n%s' % (e, i, x[1][0][0].hex()), meta=('dkp', v, [('i', i), ('n', x[1][0][0])]))
+        elif v[0] == 'o':
+            fml = sizes.first_mid_last(v)
+            for j, (i, (k, x)) in enumerate(fml if not costly else fml[-1:]):
+                ctx.add('delete_by_name %s %s' % (e, gen.hexarg(k)), meta=('dbn', v, k))
+                ctx.add('delete_by_keypath %s n%s' % (e, k.hex()), meta=('dkp', v, [('n', k)]))
+                if not costly:
+                    ctx.add('delete_by_name %s %s' % (e, gen.hexarg(k + b'x')), meta=('dbn', v, k + b'x'))
+                for upd in ((0, 1) if not costly else (1,)):
+                    ctx.add('object_insert %s %s %s %d' % (e, gen.hexarg(k), se, upd), meta=('oins', v, k, small, upd))
+                    if not costly or j == 0:
+                        ctx.add('object_insert %s %s %s %d' % (e, gen.hexarg(k + b'~'), se, upd), meta=('oins', v, k + b'~', small, upd))
+            ks = set(k for _, (k, _) in fml) | set([b'nokey'])
+            ctx.add('object_delete %s %s' % (e, gen.hexlist(sorted(ks))), meta=('odel', v, ks))
+            ctx.add('object_pick %s %s' % (e, gen.hexlist(sorted(ks))), meta=('opick', v, ks))
+            if not costly:
+                ctx.add('object_insert %s 21 %s 0' % (e, se), meta=('oins', v, b'!', small, 0))          # before every key
+                ctx.add('concat %s %s' % (e, gen.hexarg(gen.enc(('o', [(fml[-1][1][0], ('u', 7)), (b'~~', ('n',))])))),
+                        meta=('concat', v, ('o', [(fml[-1][1][0], ('u', 7)), (b'~~', ('n',))])))
+            if n <= 300:
+                keys = [k for k, _ in v[1]]
+                ctx.add('build_object %s %s' % (gen.hexlist(keys[::-1]), gen.hexlist([gen.enc(x) for _, x in v[1]][::-1])), meta=('bobj', keys[::-1], [x for _, x in v[1]][::-1]))
+        # the big document as the thing inserted
+        if lab.startswith(('str', 'key', 'mb')):
+            host = ('o', [(b'a', ('u', 1)), (b'm', ('n',)), (b'z', ('u', 2))])
+            he = gen.hexarg(gen.enc(host))
+            ctx.add('object_insert %s 6d %s 1' % (he, e), meta=('oins', host, b'm', v, 1))
+            ctx.add('object_insert %s 6e %s 0' % (he, e), meta=('oins', host, b'n', v, 0))
+            arr = ('a', [('u', 1), ('s', b'x')])
+            ctx.add('array_insert %s 1 %s' % (gen.hexarg(gen.enc(arr)), e), meta=('ains', arr, 1, v))
+            ctx.add('build_array %s' % gen.hexlist([gen.enc(arr), gen.enc(v), gen.enc(host)]), meta=('barr', [arr, v, host]))
+            if v[0] == 's' and len(v[1]) < 5000:
+                ctx.add('build_object %s %s' % (gen.hexlist([b'k', v[1]]), gen.hexlist([gen.enc(v), gen.enc(arr)])), meta=('bobj', [b'k', v[1]], [v, arr]))
+        ctx.count('big_documents', lab.split('-')[0].rstrip('0123456789'))
+
+
 def generate(ctx):
     r = ctx.rng
     ds = common.docs(ctx, ctx.scale(300, 10000), finite=False)
     ctx.ds = ds
     wide_stream(ctx)
+    big_stream(ctx)
     for v in ds:
         e = gen.hexarg(gen.enc(v))
         w = r.choice(ds)
@@ -78,22 +141,27 @@ def generate(ctx):
         ctx.add('concat %s %s' % (e, we), meta=('concat', v, w))
         ctx.add('strip_nulls %s' % e, meta=('strip', v))
         ln = len(v[1]) if v[0] == 'a' else 1
-        idxs = list(range(-ln - 2, ln + 3)) + ([2147483647, -2147483647, -2147483648] if r.random() < 0.3 else [])
+        if ln <= 40:
+            idxs = list(range(-ln - 2, ln + 3))
+        else:
+            # a wide array: every position costs the model ~0.4 s; the boundary positions from both ends and a sample
+            idxs = sorted(set(sizes.positions(ln) + [-ln - 2, -ln + 1, -2, ln + 1, ln + 2] + r.sample(range(-ln, ln), 12)))
+        idxs += [2147483647, -2147483647, -2147483648] if r.random() < 0.3 else []
         for i in idxs:
             ctx.add('delete_by_index %s %d' % (e, i), meta=('dbi', v, i))
             if r.random() < 0.6:
                 ctx.add('array_insert %s %d %s' % (e, i, we), meta=('ains', v, i, w))
         ks = common.key_variants(ctx, v)
         for k in ks[:6]:
-            ctx.add('delete_by_name %s %s' % (e, gen.hexarg(k)))
+            ctx.add('delete_by_name %s %s' % (e, gen.hexarg(k)), meta=('dbn', v, k))
             for upd in (0, 1):
-                ctx.add('object_insert %s %s %s %d' % (e, gen.hexarg(k), we, upd))
+                ctx.add('object_insert %s %s %s %d' % (e, gen.hexarg(k), we, upd), meta=('oins', v, k, w, upd))
         for _ in range(3):
             sub = r.sample(ks, min(len(ks), r.choice([0, 1, 2, 4])))
-            ctx.add('object_delete %s %s' % (e, gen.hexlist(sub)))
-            ctx.add('object_pick %s %s' % (e, gen.hexlist(sub)))
+            ctx.add('object_delete %s %s' % (e, gen.hexlist(sub)), meta=('odel', v, set(sub)))
+            ctx.add('object_pick %s %s' % (e, gen.hexlist(sub)), meta=('opick', v, set(sub)))
         for kp in common.keypaths_for(ctx, v, n=5):
-            ctx.add('delete_by_keypath %s %s' % (e, common.keypath_text(kp)))
+            ctx.add('delete_by_keypath %s %s' % (e, common.keypath_text(kp)), meta=('dkp', v, kp))
         if r.random() < 0.5:
             items = [r.choice(ds) for _ in range(r.choice([0, 1, 2, 3, 5]))]
             ctx.add('build_array %s' % gen.hexlist([gen.enc(x) for x in items]), meta=('barr', items))
@@ -234,14 +302,6 @@ def generate_malformed(ctx):
                 ctx.add('build_object%s %s %s' % (pre, gen.hexlist(keys), gen.hexlist(items)), kind='malformed')
 
 
-def normalise_outcome(c, o):
-    # a malformed case on which the Rust process died of an allocation failure is not judged
-    ctx = _CTX[0]
-    if c.kind == 'malformed' and ctx is not None and ctx.impl.get(c.id, '').startswith('abort:'):
-        return 'skipped: allocation'
-    return o
-
-
 WRITE_AS_THEY_GO = ('build_array', 'build_object')   # an error return of these two leaves the header slot + entries (recorded)
 
 
@@ -258,17 +318,13 @@ def judge(ctx):
             if left != bytes.fromhex(pre):
                 ctx.violate('an error return left bytes appended to (or changed) the buffer', case=c.line, observed=o[:300])
         if c.kind == 'malformed':
-            continue          # beyond that, corrupt buffers only feed the model/implementation diff
+            # beyond that, corrupt buffers only feed the model/implementation diff (a process death on one of them is an
+            # outcome like any other since every case gets its own outcome: the model has to show the same)
+            ctx.count('malformed_outcome', o.split(' ', 1)[0])
+            continue
         m = c.meta
-        if c.kind == 'malformed':
-            if o.startswith('abort:'):
-                ctx.count('malformed_skipped_allocation')
-            else:
-                ctx.count('malformed_outcome', o.split(' ', 1)[0])
-            continue
-        if o == 'panic':
-            ctx.violate('editor panics on valid input', case=c.line, observed=o)
-            continue
+        if o == 'panic' or o.startswith('abort:') or o == 'timeout':
+            continue          # reported by the generic rule of check.py (a valid input: violation)
         if o.startswith('ok ') and not c.line.split(' ')[0].count('@'):
             try:
                 gen.dec(gen.unhexarg(o[3:]))
@@ -313,6 +369,18 @@ def judge(ctx):
             want = 'ok ' + gen.hexarg(gen.enc(('o', sorted(d.items()))))
             if o != want:
                 ctx.violate('build_object is not the object of its parts (sorted, last duplicate wins)', case=c.line, expected=want, observed=o)
+        elif m[0] in ('dbn', 'oins', 'odel', 'opick', 'dkp'):
+            # cheap independent oracles on the tree (treeoracle.py: property text + doc comments, no model)
+            want = {'dbn': lambda: treeoracle.delete_by_name(m[1], m[2]), 'oins': lambda: treeoracle.object_insert(m[1], m[2], m[3], m[4]),
+                    'odel': lambda: treeoracle.object_delete(m[1], m[2]), 'opick': lambda: treeoracle.object_pick(m[1], m[2]),
+                    'dkp': lambda: treeoracle.delete_by_keypath(m[1], m[2])}[m[0]]()
+            name = {'dbn': 'delete_by_name', 'oins': 'object_insert', 'odel': 'object_delete', 'opick': 'object_pick', 'dkp': 'delete_by_keypath'}[m[0]]
+            if want is None:
+                ctx.count('tree_oracle_not_judged', name)
+            else:
+                ctx.count('tree_oracle_judged', name)
+                if not treeoracle.agrees(want, o):
+                    ctx.violate('%s is not the edit on the tree (independent oracle)' % name, case=c.line[:600], expected=want[:300], observed=o[:300])
         elif m[0] == 'err':
             if o.startswith('err') and not o.endswith(' aabbcc'):
                 ctx.violate('an error return left bytes appended to the buffer', case=c.line, observed=o)
